@@ -64,6 +64,8 @@ Definition T_DESER : str := [100;101;115;101;114].       (* "deser" *)
 Definition T_RT : str := [114;116].                      (* "rt" *)
 Definition T_HTL : str := [104;116;108].                 (* "htl" *)
 Definition T_UPD : str := [117;112;100].                 (* "upd" *)
+Definition T_HTLM : str := [104;116;108;109].            (* "htlm" *)
+Definition T_RENDER : str := [114;101;110;100;101;114].  (* "render" *)
 Definition T_INT : str := [105;110;116].                 (* "int" *)
 
 Definition run (fields : list str) : list str :=
@@ -102,6 +104,40 @@ Definition run (fields : list str) : list str :=
                       match ms with
                       | [] => Some (st, [])
                       | m :: r => match has_to_log pm_run (bool_of_str ed) st m with
+                                  | None => None
+                                  | Some (st1, b) => match go st1 r with
+                                                     | None => None
+                                                     | Some (st2, bs) => Some (st2, b :: bs)
+                                                     end
+                                  end
+                      end in
+                    match go (mkH nomsg []) ms with
+                    | Some (st, bs) => map str_of_bool bs ++ flags_out (h_nomsg st)
+                    | None => FUEL
+                    end
+                | None => BAD
+                end
+            | None => BAD
+            end
+        | [] => BAD
+        end
+      else if tag_is tag T_RENDER then
+        match args with
+        | vb :: r0 => match take_msg r0 with Some (m, _) => [render (bool_of_str vb) m] | None => BAD end
+        | [] => BAD
+        end
+      else if tag_is tag T_HTLM then
+        (* emitDuplicates, nomsg list, full messages (multi-frame call stacks): one flag per message, then the flags *)
+        match args with
+        | ed :: r0 =>
+            match take_list take_supp r0 with
+            | Some (nomsg, r1) =>
+                match take_list take_msg r1 with
+                | Some (ms, _) =>
+                    let fix go (st : hstate) (ms : list msg) : option (hstate * list bool) :=
+                      match ms with
+                      | [] => Some (st, [])
+                      | m :: r => match has_to_log pm_run (bool_of_str ed) st (pmsg_of_msg false m) with
                                   | None => None
                                   | Some (st1, b) => match go st1 r with
                                                      | None => None
